@@ -1,12 +1,14 @@
 #!/usr/bin/env python3
 """tools/seedtable.py <round> : prints the markdown table rows of DESIGN.md section 10.x for the seeded
 changes of that round from /verif/seeded/<ID>[-r<round>]/meta.json, and a summary line."""
-import json, sys
+import json, os, sys
 rnd = int(sys.argv[1])
-rows, caught, missed = [], [], []
+rows, caught, missed, notcaught = [], [], [], []
 for i in range(1, 20):
     pid = "C%02d" % i
     name = pid if rnd == 1 else "%s-r%d" % (pid, rnd)
+    if not os.path.exists("/verif/seeded/%s/meta.json" % name):
+        continue  # a round may cover a subset of the properties
     m = json.load(open("/verif/seeded/%s/meta.json" % name))
     summ = (m.get("summary") or "").replace("\n", " ").replace("|", "/")[:170]
     det = m["detection"]
@@ -14,10 +16,13 @@ for i in range(1, 20):
     if det["result"].startswith("caught"):
         out = "caught: " + by[:330]
         caught.append(pid)
+    elif det["result"] == "missed":
+        out = "**not caught**: " + by[:900]
+        notcaught.append(pid)
     else:
         out = "**missed-then-caught**: " + by[:560]
         missed.append(pid)
     rows.append("| %s | %s | %s |" % (name, summ, out))
 print("| id | seeded change | outcome |\n|----|---------------|---------|")
 print("\n".join(rows))
-print("\ncaught as they were: %d (%s); missed then caught: %d (%s)" % (len(caught), " ".join(caught), len(missed), " ".join(missed)), file=sys.stderr)
+print("\ncaught as they were: %d (%s); missed then caught: %d (%s); not caught: %d (%s)" % (len(caught), " ".join(caught), len(missed), " ".join(missed), len(notcaught), " ".join(notcaught)), file=sys.stderr)
